@@ -15,6 +15,7 @@ structure Pool where
   suspended : List Ctr := []
   numCompleted : Nat := 0
   tickTimes : List Nat := []
+  created : Nat := 0                                -- observer: containers this pool has created (one per accepted assignment)
   killSnap : List (Nat × Nat × Nat × Bool) := []   -- observer: (cid, usage, allocation, finished) of the running containers entering the OOM killer
   victims : List Nat := []                          -- observer: containers killed by it, in kill order
 deriving Repr, Inhabited
@@ -92,7 +93,7 @@ def startAll (cfg : Cfg) (w : Store) (p : Pool) (nextCid : Nat) : List Asg → E
   | a :: rest =>
     if !opCountOk cfg a then .error (.opCount, p, nextCid) else
     startAll cfg w { p with availC := p.availC - a.cpu, availR := p.availR - a.ram,
-                            active := p.active ++ [mkCtr w nextCid a] } (nextCid + 1) rest
+                            active := p.active ++ [mkCtr w nextCid a], created := p.created + 1 } (nextCid + 1) rest
 
 /-! ### phase 3: suspending containers -/
 
